@@ -44,7 +44,8 @@ def gen_machine(rng):
     h = rng.choice(HOSTS)
     s = rng.choice([None, None, None, "https", "http"])
     p = rng.choice([None, None, None, 8080, 443])
-    path = rng.choice(["", "", "", "/debian", "/private", "/deb"])
+    # with and without a final slash: "/debian/" applies below that directory only, not to /debian-security
+    path = rng.choice(["", "", "", "/debian", "/private", "/deb", "/debian/", "/deb/", "/private/"])
     m = (s + "://" if s else "") + h + (f":{p}" if p else "") + path
     return m
 
